@@ -5,6 +5,7 @@ import Pymc.Model.Fallback
 import Pymc.Model.Key
 import Pymc.Model.Rendezvous
 import Pymc.Model.Readers
+import Pymc.Model.ServerSpec
 /-! Line-protocol driver of the Lean models (one request per line, one reply line per request).
     Rejects what it cannot parse (`bad-op`), never defaults. -/
 open Bytes
@@ -121,6 +122,17 @@ def handleGetNode (ws : List String) : Option String := do
     | some n => "ok " ++ ",".intercalate (n.toList.map (toString ∘ Char.toNat))
     | none => "ok NONE")
 
+/-- `nodename spec=s:<cps>` or `spec=t:<cps>:<port>` -/
+def handleNodeName (ws : List String) : Option String := do
+  let sp ← arg ws "spec"
+  let spec ← match sp.splitOn ":" with
+    | ["s", cps] => (natList cps).map fun l => ServerSpec.Spec.str (l.map Char.ofNat)
+    | ["t", cps, port] => do pure (ServerSpec.Spec.tuple ((← natList cps).map Char.ofNat) (← port.toNat?))
+    | _ => none
+  pure (match ServerSpec.nodeName spec with
+    | some n => "ok " ++ (if n = [] then "-" else ",".intercalate (n.map (toString ∘ Char.toNat)))
+    | none => "ok NONE")
+
 /-! ### C03 readers -/
 def parseEv (s : String) : Option Readers.Ev :=
   if s = "i" then some .eintr
@@ -176,6 +188,7 @@ def handle (ws : List String) : String :=
     | "splitws" :: rest => handleSplitWs rest
     | "utf8" :: rest => handleUtf8 rest
     | "getnode" :: rest => handleGetNode rest
+    | "nodename" :: rest => handleNodeName rest
     | "reader" :: rest => handleReader rest
     | _ => none
   r.getD "bad-op"
